@@ -60,7 +60,7 @@ def b58dec(s):
     return n.to_bytes(82, 'big')
 
 
-NOOBS = {'ok': False, 'priv': False, 'k': [], 'P': [], 'c': [], 'depth': 0, 'fp': [], 'idx': [], 'wifprv': [], 'wifpub': []}
+NOOBS = {'ok': False, 'priv': False, 'k': [], 'P': [], 'Pu': [], 'comp': True, 'c': [], 'depth': 0, 'fp': [], 'idx': [], 'wifprv': [], 'wifpub': []}
 
 
 def obs_key(r, wif=False):
@@ -69,7 +69,9 @@ def obs_key(r, wif=False):
     ci = r.child_index
     o = {'ok': True, 'priv': priv,
          'k': list(bytes.fromhex(r.private_hex)) if priv else [],
-         'P': list(bytes.fromhex(r.public_hex)),
+         'P': list(bytes.fromhex(r.public_compressed_hex)),      # the point, SEC1 compressed
+         'Pu': list(bytes.fromhex(r.public_hex)),               # the public key as the object presents it
+         'comp': bool(r.compressed),
          'c': list(r.chain), 'depth': int(r.depth), 'fp': list(r.parent_fingerprint),
          'idx': list(ci.to_bytes(4, 'big')) if 0 <= ci < 2 ** 32 else [],
          'wifprv': [], 'wifpub': []}
@@ -96,7 +98,8 @@ def obs_published(xprv, xpub):
     p = b58dec(xpub)
     if ref.sha256d(b[:78])[:4] != b[78:] or ref.sha256d(p[:78])[:4] != p[78:] or b[45] != 0:
         raise common.MachineryError('published BIP32 vector mistyped in the harness')
-    return {'ok': True, 'priv': True, 'k': list(b[46:78]), 'P': list(p[45:78]), 'c': list(b[13:45]), 'depth': b[4],
+    return {'ok': True, 'priv': True, 'k': list(b[46:78]), 'P': list(p[45:78]), 'Pu': list(p[45:78]), 'comp': True,
+            'c': list(b[13:45]), 'depth': b[4],
             'fp': list(b[5:9]), 'idx': list(b[9:13]), 'wifprv': codes(xprv), 'wifpub': codes(xpub)}
 
 
@@ -105,10 +108,52 @@ def obs_published(xprv, xpub):
 # ------------------------------------------------------------------------------------------------------------
 
 def make_start(st):
-    from bitcoinlib.keys import HDKey
+    from bitcoinlib.keys import HDKey, Key
+    comp = st.get('compressed', True)
+    kw = {} if comp else {'compressed': False}
     if st['kind'] == 'seed':
-        return HDKey.from_seed(bytes.fromhex(st['seed']), network=st['net'], witness_type=st['wt'])
-    return HDKey(key=bytes.fromhex(st['k']), chain=bytes.fromhex(st['c']), network=st['net'], witness_type=st['wt'])
+        return HDKey.from_seed(bytes.fromhex(st['seed']), network=st['net'], witness_type=st['wt'], **kw)
+    if st.get('via') == 'Key':      # an HDKey built on a plain Key object (chain code: 32 zero bytes)
+        return HDKey(Key(int(st['k'], 16), network=st['net'], **kw), network=st['net'], witness_type=st['wt'])
+    return HDKey(key=bytes.fromhex(st['k']), chain=bytes.fromhex(st['c']), network=st['net'], witness_type=st['wt'], **kw)
+
+
+OBSERVERS = {
+    'address': lambda k: k.address(),
+    'address_uncompressed': lambda k: k.address_uncompressed(),
+    'address_compressed_false': lambda k: k.address(compressed=False),
+    'address_obj': lambda k: k.address_obj,
+    'wif': lambda k: k.wif(),
+    'wif_public': lambda k: k.wif_public(),
+    'wif_private': lambda k: k.wif_private(),
+    'wif_key': lambda k: k.wif_key(),
+    'public': lambda k: k.public(),
+    'hash160': lambda k: k.hash160,
+    'fingerprint': lambda k: k.fingerprint,
+    'as_dict': lambda k: k.as_dict(),
+    'as_dict_private': lambda k: k.as_dict(include_private=True),
+    'as_json': lambda k: k.as_json(),
+    'info': lambda k: k.info(),
+    'repr': lambda k: repr(k),
+    'public_point': lambda k: k.public_point(),
+    'public_uncompressed': lambda k: (k.public_uncompressed_hex, k.public_uncompressed_byte),
+    'public_byte': lambda k: (k.public_byte, k.public_hex, k.public_compressed_byte),
+    'child_private': lambda k: k.child_private(3),
+    'child_public': lambda k: k.child_public(4),
+    'subkey_for_path': lambda k: k.subkey_for_path("m/1'/2" if k.is_private else 'm/1/2'),
+}
+
+
+def observe(key, what):
+    """Ask the key object something and throw the answer away (an exception is an answer too)."""
+    import contextlib
+    import io
+    try:
+        with contextlib.redirect_stdout(io.StringIO()):
+            OBSERVERS[what](key)
+    except Exception:
+        pass
+    return key
 
 
 def path_arg(op, upto=None):
@@ -150,7 +195,10 @@ def apply_op(key, op, upto=None):
         return key.public()
     if op['op'] == 'reimport':      # through the serialized extended key (the receiver is "any extended key")
         from bitcoinlib.keys import HDKey
-        return HDKey(key.wif_private() if key.is_private else key.wif_public(), network=key.network.name)
+        kw = {'compressed': False} if op.get('compressed') is False else {}
+        return HDKey(key.wif_private() if key.is_private else key.wif_public(), network=key.network.name, **kw)
+    if op['op'] == 'observe':
+        return observe(key, op['what'])
     args, kwargs = call_args(op, upto)
     if op['op'] == 'path':
         return key.subkey_for_path(*args, **kwargs)
@@ -178,12 +226,30 @@ def record_of(case):
     st = case['start']
     pre = list(case['pre'])
     pub = False
-    if pre and pre[-1]['op'] == 'public':
-        pub = True
-        pre = pre[:-1]
-    key = receiver(st, pre)
+    hist = []
+    cut = len(pre)
+    while cut and pre[cut - 1]['op'] in ('observe', 'public'):
+        cut -= 1
+    tail = pre[cut:]
+    if any(op['op'] == 'observe' for op in tail):
+        # a history of observations: made on an object of its own (nothing has read its caches before), in the order given;
+        # public() inside the history copies the object as it is at that moment
+        pre = pre[:cut]
+        key = apply_op(receiver(st, pre[:-1]), pre[-1]) if pre else make_start(st)
+        recv = key
+        for op in tail:
+            if op['op'] == 'public':
+                pub = True
+            else:
+                hist.append(op['what'])
+            recv = apply_op(recv, op)
+    else:
+        if pre and pre[-1]['op'] == 'public':
+            pub = True
+            pre = pre[:-1]
+        key = receiver(st, pre)
+        recv = key.public() if pub else key
     call = case['call']
-    recv = key.public() if pub else key
     sobs = obs_key(key)
     if not pre:
         start = {'kind': st['kind'], 'seed': list(bytes.fromhex(st.get('seed', ''))), 'k': list(bytes.fromhex(st.get('k', ''))),
@@ -205,7 +271,7 @@ def record_of(case):
         tl = [codes(str(call['i']) + ("'" if call.get('h') else ''))]
     _, got = attempt(lambda: apply_op(recv, call), wif=True)
     return {'k': 'path', 'api': api, 'start': start, 'pub': pub, 'aslist': aslist, 'path': path, 'toks': tl, 'mids': mids,
-            'net': key.network.name, 'callnet': call.get('net') or '', 'wt': str(key.witness_type).replace('-', '_'), 'got': got}
+            'hist': hist, 'net': key.network.name, 'callnet': call.get('net') or '', 'wt': str(key.witness_type).replace('-', '_'), 'got': got}
 
 
 def drive_chunk(cases):
@@ -221,7 +287,10 @@ def drive_chunk(cases):
 
 def describe(case):
     st = case['start']
-    s = 'from_seed(%s)' % st['seed'] if st['kind'] == 'seed' else 'HDKey(key=%s, chain=%s)' % (st['k'], st['c'])
+    s = 'from_seed(%s)' % st['seed'] if st['kind'] == 'seed' else 'HDKey(%skey=%s, chain=%s)' % (
+        'Key, ' if st.get('via') else '', st['k'], st['c'])
+    if not st.get('compressed', True):
+        s += '[compressed=False]'
     ops = case['pre'] + [case['call']]
     if len(ops) > 14:
         ops = ops[:4] + [{'op': 'skip', 'n': len(ops) - 12}] + ops[-8:]
@@ -232,7 +301,9 @@ def describe(case):
         if op['op'] == 'public':
             s += '.public()'
         elif op['op'] == 'reimport':
-            s += '.reimported()'
+            s += '.reimported(%s)' % ('compressed=False' if op.get('compressed') is False else '')
+        elif op['op'] == 'observe':
+            s += '.<%s>' % op['what']
         else:
             a, k = call_args(op)
             s += '.%s(%s)' % ('subkey_for_path' if op['op'] == 'path' else op['op'],
@@ -257,6 +328,10 @@ def other_net(net):
 
 
 PUBLIC = {'op': 'public'}
+
+
+def OBS(what):
+    return {'op': 'observe', 'what': what}
 
 
 # ------------------------------------------------------------------------------------------------------------
@@ -295,7 +370,7 @@ def vector_records():
         for n in range(len(chain)):
             toks = ['m'] + [e for e, _, _ in chain[1:n + 1]]
             recs.append({'k': 'path', 'api': 'path', 'start': start, 'pub': False, 'aslist': False, 'path': codes('/'.join(toks)),
-                         'toks': [], 'mids': keys[1:n], 'net': 'bitcoin', 'callnet': '', 'wt': 'legacy', 'got': keys[n]})
+                         'toks': [], 'mids': keys[1:n], 'hist': [], 'net': 'bitcoin', 'callnet': '', 'wt': 'legacy', 'got': keys[n]})
     return recs
 
 
@@ -526,6 +601,74 @@ def run(replay=None):
                     eqcases.append((st, pre, pre + [{'op': 'reimport'}], ('roundtrip', 255, 'own')))
                     if isprivate:
                         eqcases.append((st, pre + [PUBLIC], pre + [PUBLIC, {'op': 'reimport'}], ('roundtrip', 255, 'xpub')))
+        # (9) observation histories: whatever a key object was asked before / between derivations (addresses in every form,
+        #     serializations, hashes, dumps, public(), earlier derivations) - derivation and serialization stay the same.
+        #     Every history is played on an object of its own, so nothing has filled its caches before.
+        obsnames = sorted(OBSERVERS)
+        hstarts = [main, dict(main, wt='segwit'), others[1], others[-1]]
+        hcalls = [lambda: P(['0']), lambda: P(["1'"]), lambda: CPUB(2), lambda: P(['3', '4'], 'M'), lambda: CPRIV(5, True),
+                  lambda: P(['6', "7'"]), lambda: CPRIV(8)]
+        hn = [0]
+
+        def hist_case(st, base, hist, klass):
+            """history `hist` (observer names, 'PUBLIC' = take the public key there) on the key reached by `base`"""
+            tail = [PUBLIC if h == 'PUBLIC' else OBS(h) for h in hist]
+            public = 'PUBLIC' in hist
+            for _ in range(2):
+                call = hcalls[hn[0] % len(hcalls)]()
+                hn[0] += 1
+                if public and (call['op'] == 'child_private' or any(e[-1] == "'" for e in call.get('elems', []))):
+                    continue        # (refusals of hardened children of public keys: groups 1-3)
+                add(st, base + tail, call, klass)
+        for si, st in enumerate(hstarts if thorough else hstarts[:2]):
+            for base in ([], [P(["5'"])], [P(["5'", '6'])]):
+                for o in obsnames:                                   # every single observer, before and after public()
+                    hist_case(st, base, [o], ('history', 1, o, len(base), 'priv'))
+                    if thorough or (si + len(base)) % 2 == 0:
+                        hist_case(st, base, [o, 'PUBLIC'], ('history', 1, o, len(base), 'obs-then-public'))
+                        hist_case(st, base, ['PUBLIC', o], ('history', 1, o, len(base), 'public-then-obs'))
+        for t in range(600 if thorough else 70):                     # longer histories, all kinds of receivers
+            st = rng.choice(hstarts)
+            base = rng.choice([[], [P(["5'"])], [P(['9', '1'])], [P(["0'"]), {'op': 'reimport'}]])
+            hist = [rng.choice(obsnames) for _ in range(rng.randrange(2, 6))]
+            if rng.random() < 0.5:
+                hist.insert(rng.randrange(len(hist) + 1), 'PUBLIC')
+            hist_case(st, base, hist, ('history', len(hist), tuple(hist[:2]), len(base)))
+        # (10) the `compressed` flag of the parent object is no part of the extended key: serP is the compressed point
+        #      for every parent; private, public and mixed-split derivation agree with BIP32 whatever the flag
+        ustarts = [dict(main, compressed=False), dict(others[1], compressed=False), dict(others[-1], compressed=False),
+                   {'kind': 'key', 'via': 'Key', 'k': '%064x' % rng.randrange(1, ref.N), 'c': '00' * 32, 'net': 'bitcoin',
+                    'wt': 'legacy', 'compressed': False},
+                   {'kind': 'key', 'via': 'Key', 'k': '%064x' % rng.randrange(1, ref.N), 'c': '00' * 32, 'net': 'testnet',
+                    'wt': 'segwit', 'compressed': True}]
+        ubases = [(st, []) for st in ustarts] + \
+                 [(main, [P(["0'"]), {'op': 'reimport', 'compressed': False}]),
+                  (main, [P(['1', '2']), {'op': 'reimport', 'compressed': False}]),
+                  (main, [P(['1']), PUBLIC, {'op': 'reimport', 'compressed': False}]),
+                  (others[0], [{'op': 'reimport', 'compressed': False}])]
+        for st, base in ubases:
+            kind = ('uncompressed', st.get('via', st['kind']), len(base))
+            pubonly = PUBLIC in base
+            for sh in ([['0'], ['1'], ['2147483647'], ["0'"], ['0h'], ['2147483648'], ['1', '2'], ["1'", '2'], ['1', "2'"],
+                        ['3', '4', '5']] + sample(shapes[2], 30 if thorough else 3)):
+                for root in ('m', 'M'):
+                    add(st, base, P(sh, root, rng.random() < 0.2, *anyvar(st)), kind + ('path', root, cls(sh) if all(
+                        t in classes for t in sh) else tuple(sh)))
+                if not pubonly:
+                    add(st, base + [PUBLIC], P(sh, rng.choice(['m', ''])), kind + ('path', 'public()', len(sh)))
+                    for j in range(1, len(sh)):                      # every split point
+                        add(st, base + [P(sh[:j]), PUBLIC], P(sh[j:], rng.choice(['m', 'M', ''])), kind + ('split', j, len(sh)))
+            for i in (0, 7, 2 ** 31 - 1):
+                add(st, base, CPUB(i, *anyvar(st)), kind + ('child_public', i))
+                if not pubonly:
+                    add(st, base, CPRIV(i, rng.choice([None, False]), *anyvar(st)), kind + ('child_private', i))
+                    add(st, base, CPRIV(i, True), kind + ('child_private-hardened', i))
+                    add(st, base + [PUBLIC], CPUB(i), kind + ('child_public-of-public()', i))
+                    a = base + [CPRIV(i), PUBLIC]
+                    for b in (base + [PUBLIC, CPUB(i)], base + [CPUB(i)], base + [P([str(i)], 'M')],
+                              base + [PUBLIC, P([str(i), '1'], 'm')]):
+                        a2 = a if b[-1]['op'] != 'path' or len(b[-1]['elems']) == 1 else base + [P([str(i), '1']), PUBLIC]
+                        eqcases.append((st, a2, b, ('commute-uncompressed', kind, b[-1]['op'], len(b) - len(base))))
         # (6) API edge cases
         for st in [main, others[0]]:
             for i, h in [(0, False), (0, True), (2 ** 31 - 1, True), (2 ** 31, False), (2 ** 31, True), (2 ** 32 - 1, False),
